@@ -86,6 +86,10 @@ var bitAxioms = []string{
 	"(assert (= (popcount 0) 0))",
 	"(assert (forall ((k Int)) (! (=> (and (<= 0 k) (< k 64)) (and (<= 1 (pow2 k)) (<= (pow2 k) 9223372036854775808))) :pattern ((pow2 k)))))",
 	"(assert (= (pow2 0) 1))",
+	// single-bit test / set / clear
+	"(assert (forall ((a Int) (k Int)) (! (=> (and (<= 0 k) (< k 64)) (= (distinct (band a (pow2 k)) 0) (bit a k))) :pattern ((band a (pow2 k))))))",
+	"(assert (forall ((a Int) (k Int)) (! (=> (and (<= 0 k) (< k 64) (<= 0 a) (<= a 18446744073709551615)) (= (bor a (pow2 k)) (ite (bit a k) a (+ a (pow2 k))))) :pattern ((bor a (pow2 k))))))",
+	"(assert (forall ((a Int) (k Int)) (! (=> (and (<= 0 k) (< k 64) (<= 0 a) (<= a 18446744073709551615)) (= (bandnot a (pow2 k)) (ite (bit a k) (- a (pow2 k)) a))) :pattern ((bandnot a (pow2 k))))))",
 	// extensionality for words in range
 	"(assert (forall ((a Int)) (! (=> (and (<= 0 a) (<= a 18446744073709551615) (forall ((k Int)) (=> (and (<= 0 k) (< k 64)) (not (bit a k))))) (= a 0)) :pattern ((popcount a)))))",
 }
@@ -314,8 +318,8 @@ func (d *Decls) rangeAssumption(t types.Type, term string, depth int) string {
 		}
 		return ""
 	case *types.Slice:
-		return fmt.Sprintf("(and (>= (sref %s) 0) (>= (soff %s) 0) (>= (slen %s) 0) (<= (slen %s) (scap %s)) (=> (= (sref %s) 0) (= (scap %s) 0)))",
-			term, term, term, term, term, term, term)
+		return fmt.Sprintf("(and (>= (sref %s) 0) (>= (soff %s) 0) (>= (slen %s) 0) (<= (slen %s) (scap %s)) (<= (scap %s) 9223372036854775807) (=> (= (sref %s) 0) (= (scap %s) 0)))",
+			term, term, term, term, term, term, term, term)
 	case *types.Pointer, *types.Map, *types.Chan, *types.Signature, *types.Interface:
 		return fmt.Sprintf("(>= %s 0)", term)
 	case *types.Struct:
